@@ -136,19 +136,14 @@ Proof.
   - cbn. now rewrite orb_true_r.
   - rewrite available_some, E. cbn. now rewrite !orb_false_r, negb_involutive.
 Qed.
-(* ... and the criterion as a whole, when no operand hidden from nodes_ names a foreign table *)
+(* ... and the criterion as a whole: every field, in whatever operand it sits *)
 Lemma join_on_exact : forall s item crit,
   forallb (fun r => match r with
                     | Some t => forallb (fun u => negb (tbl_eqb t u) || tbl_ident t u) (sources s item)
                     | None => true
                     end) (crit_all_tables crit) = true ->
-  existsb (foreign_ref s item) (crit_hid_tables crit) = false ->
-  validate_on s item (crit_vis_tables crit) = negb (names_foreign_table s item crit).
-Proof.
-  intros s item crit Hsub Hhid. unfold names_foreign_table, crit_all_tables in *.
-  rewrite forallb_app in Hsub. apply andb_prop in Hsub. destruct Hsub as [Hvis _].
-  rewrite existsb_app, Hhid, orb_false_r. now apply join_on_list.
-Qed.
+  validate_on s item (crit_all_tables crit) = negb (names_foreign_table s item crit).
+Proof. intros s item crit Hsub. unfold names_foreign_table. now apply join_on_list. Qed.
 
 Lemma on_field_valid : forall s item f0 r, q_from s = f0 :: r -> validate_on s item [Some f0; Some item] = true.
 Proof.
@@ -174,27 +169,12 @@ Proof. intros A f g l H. induction l as [|a l IH]; cbn; auto. now rewrite H, IH.
 Lemma existsb_map_item : forall a (js : list jrec),
   existsb (tbl_eqb a) (map j_item js) = existsb (fun j => tbl_eqb a (j_item j)) js.
 Proof. intros a js. induction js as [|j js IH]; cbn; auto. now rewrite IH. Qed.
-Definition unknown_alq (s : qst) (a : tbl) : bool :=
-  negb (existsb (tbl_eqb a) (q_with s)) && negb (existsb (tbl_eqb a) (q_from s))
-  && negb (existsb (fun j' => tbl_eqb a (j_item j')) (q_joins s)).
-Lemma unknown_with_spec : forall s, unknown_with s = existsb (fun j => existsb (unknown_alq s) (j_alq j)) (q_joins s).
+Lemma unknown_with_spec : forall s, unknown_with s = refers_unknown_with s.
 Proof.
-  intros s. unfold unknown_with, unknown_alq.
+  intros s. unfold unknown_with, refers_unknown_with.
   apply existsb_ext_in. intro j. rewrite filter_nonnil_existsb.
   apply existsb_ext_in. intro a. rewrite !existsb_app, existsb_map_item, !negb_orb.
   now rewrite andb_assoc.
-Qed.
-Lemma existsb_orb_split : forall A (f g : A -> bool) l,
-  existsb (fun x => f x || g x) l = existsb f l || existsb g l.
-Proof.
-  intros A f g l. induction l as [|a l IH]; cbn; auto. rewrite IH.
-  destruct (f a), (g a), (existsb f l), (existsb g l); reflexivity.
-Qed.
-Lemma refers_unknown_split : forall s,
-  refers_unknown_with s = existsb (fun j => existsb (unknown_alq s) (j_alq j)) (q_joins s) || hidden_unknown_with s.
-Proof.
-  intros s. unfold refers_unknown_with, hidden_unknown_with. fold (unknown_alq s).
-  rewrite <- existsb_orb_split. apply existsb_ext_in. intro j. now rewrite existsb_app.
 Qed.
 
 (* ------------------------------------------------------------------------------------------ *)
@@ -414,9 +394,8 @@ Proof.
   - (* join *)
     unfold join_step.
     destruct h as [[crit|]|n|n|].
-    + cbn in Hfr. apply andb_prop in Hfr. destruct Hfr as [Hsub Hhid]. apply negb_true_iff in Hhid.
-      unf. cbn. rewrite hd_if. cbn.
-      rewrite (join_on_exact s (tag_sub (q_subcount s) item) (retag_crit item (tag_sub (q_subcount s) item) crit) Hsub Hhid).
+    + cbn in Hfr. unf. cbn. rewrite hd_if. cbn.
+      rewrite (join_on_exact s (tag_sub (q_subcount s) item) (retag_crit item (tag_sub (q_subcount s) item) crit) Hfr).
       destruct (names_foreign_table s (tag_sub (q_subcount s) item) (retag_crit item (tag_sub (q_subcount s) item) crit));
         cbn; split; intro H; try discriminate; try tauto.
       * injection H as <-. auto.
@@ -463,14 +442,9 @@ Proof.
     + destruct percent; fin.
     + destruct percent, b; fin.
   - (* render *)
-    cbn -[is_statement hidden_unknown_with] in Hfr. apply negb_true_iff in Hfr.
     unf. cbn -[renders unknown_with is_statement refers_unknown_with].
-    rewrite renders_is_statement, unknown_with_spec, refers_unknown_split.
-    assert (E : is_statement s && (existsb (fun j => existsb (unknown_alq s) (j_alq j)) (q_joins s) || hidden_unknown_with s)
-                = is_statement s && existsb (fun j => existsb (unknown_alq s) (j_alq j)) (q_joins s)).
-    { destruct (is_statement s), (hidden_unknown_with s); cbn in *; try discriminate; now rewrite ?orb_false_r. }
-    rewrite E.
-    destruct (is_statement s && existsb (fun j => existsb (unknown_alq s) (j_alq j)) (q_joins s)); [fin|].
+    rewrite renders_is_statement, unknown_with_spec.
+    destruct (is_statement s && refers_unknown_with s); [fin|].
     destruct s; cbn. destruct q_cls; try (fin; fail).
     destruct pg_nothing, pg_updates, pg_fields; fin.
 Qed.
